@@ -1141,6 +1141,29 @@ func (c *Ctx) leafExpectations() map[string]string {
 	for _, n := range sum.Impls {
 		impls[n.Obj().Name()] = true
 	}
+	// helpers that build the type error from the expected type name they are given
+	errHelper := map[*ssa.Function]int{}
+	for _, fn := range c.P.ModuleFunctions() {
+		if relOfFn(fn) != "internal/interpreter" {
+			continue
+		}
+		for _, b := range fn.Blocks {
+			for _, in := range b.Instrs {
+				st, ok := in.(*ssa.Store)
+				if !ok {
+					continue
+				}
+				if fld := core.FieldOf(st.Addr); fld != nil && fld.Name() == "Expected" {
+					if fa, ok := st.Addr.(*ssa.FieldAddr); ok && ownerName(fa) == "TypeError" {
+						if prm, ok := st.Val.(*ssa.Parameter); ok {
+							errHelper[fn] = paramIndex(fn, prm)
+							c.Touch(fn)
+						}
+					}
+				}
+			}
+		}
+	}
 	for _, fn := range c.P.ModuleFunctions() {
 		if relOfFn(fn) != "internal/interpreter" || len(fn.Params) == 0 {
 			continue
@@ -1172,6 +1195,12 @@ func (c *Ctx) leafExpectations() map[string]string {
 							if sv, ok := core.ConstString(x.Val); ok {
 								reported = append(reported, sv)
 							}
+						}
+					}
+				case *ssa.Call:
+					if k, isH := errHelper[x.Call.StaticCallee()]; isH && x.Call.StaticCallee() != nil && k >= 0 && k < len(x.Call.Args) {
+						if sv, ok := core.ConstString(x.Call.Args[k]); ok {
+							reported = append(reported, sv)
 						}
 					}
 				}
